@@ -5,6 +5,7 @@ V = os.path.dirname(os.path.dirname(os.path.abspath(__file__)))
 props = [json.loads(l)['id'] for l in open(os.path.join(V, 'properties.jsonl'))]
 
 E2 = 'mirsym (bounded symbolic execution of rustc MIR, z3)'
+BT = 'bounded symbolic execution of the MIR of the real backup() (GC-lock check, basis stitch, MergeTrees, Band::create, BackupWriter::{copy_entry,copy_file,copy_dir,copy_symlink,flush_group,finish}, FileCombiner, store_file_content, read_with_retries, BlockDir::store_or_deduplicate, IndexWriter::finish_hunk, Band::close) over a symbolic transport store and a modelled source side, z3 deciding file sizes vs max_block_size / small_file_cap / max_entries_per_hunk'
 CLAIMS = {
  'C11': dict(engine='mirsym', technique='bounded symbolic execution of the MIR of Apath::{is_valid,cmp,append} with z3; oracle = independent z3 statement of the documented order; counterexamples replayed natively',
    text='For every pair (triple) of paths of up to N code points over the whole Unicode scalar range the solver shows Apath::cmp equals the documented total order, is antisymmetric/transitive, Equal only for identical strings, and is_valid equals the documented rule; bounded-holds within N (8 quick / 10-12 thorough), nothing claimed beyond.',
@@ -22,6 +23,21 @@ CLAIMS = {
    text='For each of a set of small archive shapes (2-3 bands, shared/private/garbage blocks, symbolic block lengths and address offsets, gaps, incomplete newest band, stale lock), every delete set, dry-run/real, with and without break_lock: the solver explores every crash point and every single failing read/list/metadata step with each error kind, and shows that remaining complete bands keep all blocks, only requested bands / unreferenced blocks / the lock are removed, no garbage remains after success and a dry run mutates nothing. Bounded to those shapes.',
    note='Trusted: MIR printer, mirsym + models, the Store transport model, list_blocks modelled (tokio JoinSet not executed), remove_dir_all atomic, Snappy/JSON inverse, hash injective, z3. Histories are not explored: the pre-state is an arbitrary archive satisfying the stated invariant.',
    design='§3 C05', category='fault_enumeration'),
+ 'C03': dict(engine='mirsym', category='fault_enumeration', technique=BT + '; the crash step k (before any storage step, or inside any write leaving an empty file) is a solver variable; post-crash store checked by an independent reader, then the real Stitch and a follow-up backup are run on it; native replay through verif_hooks',
+   text='For each source shape (1-3 entries of files/dirs/symlinks, symbolic sizes and options, with and without a previous version) the solver explores every crash point of the storage trace: after each, every hunk present names only present blocks holding exactly the right bytes, earlier files are untouched, every version lists per the stitching rule without errors, and a follow-up backup completes, is exact and rewrites nothing. Bounded to the listed cases.',
+   note='Trusted: MIR printer, mirsym + models, Store model (operations atomic except the empty-file state), source/file-read model, hash injective, Snappy/JSON inverse, z3. Restoring the bytes is checked as address provenance, not by running restore().', design='§3 C03'),
+ 'C04': dict(engine='mirsym', category='fault_enumeration', technique=BT + '; the failing step k and its error kind are solver variables; native replay through verif_hooks',
+   text='For each source shape the solver explores every single storage step failing with each of four error kinds: no panic, earlier files untouched, every recorded file entry resolves to exactly its own bytes (never another file\'s, never a missing/short block), and a result with no error returned or counted implies a closed band listing the whole source. Bounded to the listed cases and to one fault per run.',
+   note='Trusted: as C03. Multi-fault sequences are outside the claim.', design='§3 C04'),
+ 'C07': dict(engine='mirsym', technique=BT + ' with a write-once monitor inside the store model; Band::create over all subsets of existing band directories',
+   text='Across fault-free, crashed, (thorough: faulted) and resumed backups on archives with a previous version (written by a real earlier backup or directly in the documented format): no pre-existing path is removed or rewritten, no non-empty path is written twice, and Band::create picks an id above every existing directory (gaps, headless newest band). Bounded to the listed cases.',
+   note='Trusted: as C03. Not covered: two racing backups; the local Protocol::write implementation itself (it ignores CreateNew today; see DESIGN §C07) -- the store model mirrors that behaviour and the monitor flags any overwrite.', design='§3 C07'),
+ 'C13': dict(engine='mirsym', technique=BT + '; the resulting store is read back by an independent reader of doc/format.md',
+   text='For each fault-free backup over the listed shapes (symbolic sizes/options, incremental, symbolic mtimes, nested names around "/"): hunks numbered 0..n-1, none empty, entries strictly increasing within and across hunks under an independent comparator, tail count = hunk count, blocks under d/<first 3 hex>/<hash> and holding the content that hashes to the name, every address inside its block and resolving to the file\'s bytes, lengths sum to the size, only files carry addresses, only symlinks a target; hunk naming checked on boundary numbers.',
+   note='Trusted: as C03; the literal JSON/Snappy/BLAKE2 byte encodings are modelled, not decoded.', design='§3 C13'),
+ 'C14': dict(engine='mirsym', technique=BT + '; storage trace of a second backup of an unchanged tree, and of a backup resumed after a solver-chosen crash point',
+   text='A second backup of an unchanged tree issues no write under d/ and records the same addresses; no run (including the follow-up after any crash point) writes a block that is already stored non-empty. Bounded to the listed cases.',
+   note='Trusted: as C03.', design='§3 C14'),
 }
 NA = {
  'C15': 'exclusion semantics live in globset/regex automata, which neither Kani nor the MIR interpreter can execute; a model of glob matching would verify the model, not conserve (DESIGN §4)',
